@@ -348,15 +348,16 @@ def encPrefix (r : Str) : Option Str :=
             -- end of input inside the IV: the length checks run, then `consume(',')` fails
             none
 
-/-- `parse_block_size_spec`: number, optional K/M (G/T/P refused), optional `*` [count u32]. -/
+/-- `parse_block_size_spec`: number, optional K/M (the scaled size must fit u64; G/T/P refused),
+optional `*` [count u32]. -/
 def sizeSpec (s : Str) : Option Str :=
   match number s with
   | none => none
-  | some (_, r) =>
+  | some (v, r) =>
     let r1 : Option Str :=
       match r with
-      | 'K' :: t => some t
-      | 'M' :: t => some t
+      | 'K' :: t => if v * 1024 < 2 ^ 64 then some t else none         -- fix 2261323: checked_mul
+      | 'M' :: t => if v * 1048576 < 2 ^ 64 then some t else none
       | 'G' :: _ => none
       | 'T' :: _ => none
       | 'P' :: _ => none
@@ -545,7 +546,77 @@ def front (H : Hash) (szEntry : Nat) (d : Bytes) : Front :=
   | none => .error
   | some f => { verdict := .pass, allocs := [f.entries.length * szEntry] }
 
+/-- `LRU_SENTINEL`. -/
+def sentinel : Nat := 0xFFFFFFFF
+
+/-- `for_each_entry` with the callback dropped: following `next` from `idx` for at most `k` steps,
+indexing the table as the code does: `some true` = reached the sentinel, `some false` = did not
+within `k` steps, `none` = an index out of range (`entries[idx as usize]` panics). -/
+def chain (es : List Integrity.Lru.Entry) : Nat → Nat → Option Bool
+  | 0, idx => some (idx == sentinel)
+  | k + 1, idx =>
+    if idx == sentinel then some true
+    else
+      match es[idx]? with
+      | none => none
+      | some e => chain es k e.next
+
+/-- the `while idx != LRU_SENTINEL` loop of `links_are_valid` (fix b5d4e35 / 1b8e830): `prev` = the
+index visited before, `seen` = the slots marked `on_list`. `some (last, seen)` = reached the
+sentinel; `none` = refused (index outside the table, second visit, `entry.prev` not the slot
+before). Every step marks a new slot of the table, so `len + 1` steps of fuel are never used up. -/
+def walk (es : List Integrity.Lru.Entry) : Nat → Nat → Nat → List Nat → Option (Nat × List Nat)
+  | 0, _, _, _ => none
+  | k + 1, prev, idx, seen =>
+    if idx == sentinel then some (prev, seen)
+    else
+      match es[idx]? with
+      | none => none
+      | some e =>
+        if seen.contains idx || e.prev != prev then none
+        else walk es k idx e.next (idx :: seen)
+
+/-- `LruFileEntry::is_active`. -/
+def active (e : Integrity.Lru.Entry) : Bool := e.ekey != List.replicate 9 (0 : Byte)
+
+/-- `links_are_valid`: the walk from the LRU tail, then `prev == mru_head` and every keyed entry is
+on the list. -/
+def linksValid (f : Integrity.Lru.File) : Bool :=
+  match walk f.entries (f.entries.length + 1) sentinel f.tail [] with
+  | none => false
+  | some (last, seen) =>
+    last == f.head &&
+      (f.entries.zipIdx.all (fun (e, i) => seen.contains i || !active e))
+
+/-- `LruManager::load_from_disk` on the file bytes: accepted? -/
+def loadOk (H : Hash) (d : Bytes) : Bool :=
+  match Integrity.Lru.deserialize H d with
+  | none => false
+  | some f => linksValid f
+
 end Lru
+
+/-! ## `blte::EncryptedHeader` (binrw): sizes and the type byte -/
+namespace EncHdr
+
+/-- `EncryptedHeader::read`: key_name_size, that many bytes, iv_size, that many bytes, the type byte
+(`try_map` since fix 7d3d08a: `S` or `A`, anything else is an error). Complete model. -/
+def read (d : Bytes) : Bool :=
+  match d with
+  | [] => false
+  | kns :: r =>
+    if r.length < kns.toNat then false
+    else
+      match r.drop kns.toNat with
+      | [] => false
+      | ivs :: r2 =>
+        if r2.length < ivs.toNat then false
+        else
+          match r2.drop ivs.toNat with
+          | [] => false
+          | t :: _ => t.toNat == 0x53 || t.toNat == 0x41
+
+end EncHdr
 
 namespace Resid
 
